@@ -64,7 +64,12 @@ class ValuesProfile(StoreProfile):
             p = m.path_of_sid(base, c)
             if p:
                 return X.call("Sid", path=p, config=c)
-        if r < 0.90:
+        if r < 0.86:
+            # a forced type that does not fit: an UNTYPED Sid with the same string as the typed one
+            wrong = [t.name for t in m.types if not t.accepts(base.split("/"))]
+            if wrong:
+                return X.call("Sid", rng.choice(wrong) + ":" + base)
+        if r < 0.92:
             return X.call("Sid", rng.choice(["foo/bar", "", "hamlet/x/y", "bla", base + "?zz=1", base + "/extra/extra/extra/extra"]))
         return X.call("Sid", tn + ":" + base)
 
